@@ -103,6 +103,10 @@ def _add_markdown_hard_break_handling(base_wrapper: LineWrapper) -> LineWrapper:
             wrapped_segment = _protect_trailing_backslashes(
                 base_wrapper(segment, cur_initial_indent, subsequent_indent), is_last
             )
+            if not wrapped_segment:
+                # An empty segment (a paragraph that starts with a hard break, or two in a
+                # row) still occupies a line in its container.
+                wrapped_segment = cur_initial_indent
             if is_last:
                 wrapped_segments.append(wrapped_segment)
             else:
